@@ -97,6 +97,7 @@ type ScriptOpts struct {
 	HdrItem    *rapid.Generator[Item] // generator for header items (default Item)
 	NoZeroHdr  bool                   // header has at least one cell
 	SimpleOnly bool                   // only hdr/rowitems/sep
+	HdrCells   [2]int                 // if HdrCells[1] > 0: header cell count drawn from [HdrCells[0], HdrCells[1]]
 }
 
 func (o ScriptOpts) cellCount(t *rapid.T, label string) int {
@@ -130,7 +131,12 @@ func ScriptGen(o ScriptOpts) *rapid.Generator[Script] {
 			hdrItem = o.Item
 		}
 		items := func(label string, g *rapid.Generator[Item], min int) []Item {
-			c := o.cellCount(t, label)
+			c := 0
+			if label == "hn" && o.HdrCells[1] > 0 {
+				c = rapid.IntRange(o.HdrCells[0], o.HdrCells[1]).Draw(t, label)
+			} else {
+				c = o.cellCount(t, label)
+			}
 			if c < min {
 				c = min
 			}
